@@ -218,6 +218,19 @@ fn gen_case(r: &mut Rng, bads: &[Bad], k: usize) -> Case {
         // multi-byte text and a CRLF right before the entry
         pre.push_str("; 直前のコメント\r\n\r\n");
     }
+    let mut side_file: Option<(String, String)> = None;
+    // sometimes the bad entry comes after the loader has returned from a side include
+    // (a valid file, or a blank one) in the same file
+    if k % 3 != 0 {
+        let dir = ["", "sub/", "sub/deep/", "sub/deep/"][depth];
+        let blank = k % 2 == 0;
+        let side = format!("{}side{}.ledger", dir, k % 4);
+        let content = if blank { if k % 4 == 0 { String::new() } else { "\n  \n".to_string() } } else { g.valid_block(2) };
+        side_file = Some((side.clone(), content));
+        pre.push_str(&format!("include side{}.ledger", k % 4));
+        pre.push_str(g.nl());
+        pre.push_str(g.nl());
+    }
     let first_line = 1 + count_lines(&pre) + bads[bad].valid_head;
     let entry_index = count_entries(&pre) + if bads[bad].valid_head > 0 { 1 } else { 0 };
     let mut t = pre;
@@ -234,7 +247,11 @@ fn gen_case(r: &mut Rng, bads: &[Bad], k: usize) -> Case {
         t.push_str(&g.valid_block(2));
     }
     files.push((names[depth].to_string(), t));
-    Case { files, bad_file: depth, first_line, last_line, entry_index, bad, depth }
+    let bad_file = files.len() - 1;
+    if let Some(sf) = side_file {
+        files.push(sf);
+    }
+    Case { files, bad_file, first_line, last_line, entry_index, bad, depth }
 }
 
 fn strip_ansi(s: &str) -> String {
